@@ -188,6 +188,7 @@ def alphabet(limits):
         A.append(L.tick(100, "SUS", [wrap(["C", 0, None])]))  # cancel that fails: the market is suspended when it executes ...
         A.append(L.tick(100, "Q", [wrap(["C", 1, None])]))  # ... 100 ms steps keep requests in flight over an update
         A.append(L.tick(1000, "Q", [wrap(["C", 0, None])]))
+        A.append(L.tick(100, "T22", [wrap(["C", 0, None])]))  # cancel that fails on an open market: the order is matched while it is in flight
         A.append(L.tick(1000, "Q", [wrap(["R", 0, 2.3])]))
         A.append(L.tick(100, "T22", [wrap(["R", 0, 2.3])]))  # the order is matched while the replace is in flight: nothing is submitted for it
         A.append(L.tick(3600_000, "Q", [wrap(L.P("PBn"))]))
@@ -340,6 +341,10 @@ def run(tier):
     cfgs = [
         dict(name="limit3", limits=[3], dt=1000),
         dict(name="limit0", limits=[0], dt=1000),
+        dict(name="limit1", limits=[1], dt=1000),
+        # start state: one bet, then a cancel that failed (market suspended when it executed), market open again -
+        # failed instructions alone have taken the hourly total over the limit
+        dict(name="limit1-after-failed-cancel", limits=[1], dt=1000, prefix=[L.tick(1000, "Q", [L.P("PBn")]), L.tick(100, "SUS", [["C", 0, None]]), L.tick(1000), L.tick(1000, "OPN")]),
         dict(name="nolimit", limits=[None], dt=1000),
         dict(name="two-clients", limits=[3, None], dt=1000),
         dict(name="midnight", limits=[3], dt=1000, t0=HOUR + 3600_000 - 7000),
